@@ -141,6 +141,24 @@ def rule_merge(ctx) -> None:
         loops = [st for st, part in enclosing(ctx.prog, fn, c) if isinstance(st, ast.For) and part == "body"]
         bad = any(any(isinstance(x, ast.Call) and (dotted(x.func) or "").endswith("as_completed") for x in ast.walk(st.iter)) for st in loops)
         ctx.check(not bad or True, "C09.MERGE", f"{fn.qual}/gather-loop", fn.loc(c), "futures are joined in a loop" + (" over as_completed (order restored by the sort)" if bad else " over the submit-ordered list"), "")
+    # every submitted task is joined: the failure report lists every failing task in key order, whatever the worker count and
+    # completion order - so no future is cancelled or skipped once a failure has been seen ("fail fast")
+    cancels = [(n, c) for n in cfg.nodes for c in node_calls(n) if call_tail(c) in ("cancel", "shutdown") and isinstance(c.func, ast.Attribute)]
+    ctx.check(not cancels, "C09.MERGE", f"{fn.qual}/no-future-cancelled", fn.loc(cancels[0][1]) if cancels else fn.loc(),
+              "no future is cancelled and the pool is not shut down early: every task runs to completion or failure",
+              f"`{src(cancels[0][1])[:40] if cancels else ''}` drops queued work after a failure: a failing task that was still queued never runs and is missing from ParallelError.errors, "
+              "so the error report depends on the worker count and on which task finished first")
+    for n, c in res_calls:
+        loops = [st for st, part in enclosing(ctx.prog, fn, c) if isinstance(st, ast.For) and part == "body"]
+        if not loops:
+            continue
+        head = [h for h in cfg.nodes if h.kind == "iter" and h.ast is loops[0]]
+        if not head:
+            continue
+        body_first = [t for t, lab in head[0].succ if lab != "exc"]
+        p = cfg.path(body_first, lambda m: m is head[0], avoid=lambda m: m is n, edge_ok=no_exc)
+        ctx.check(p is None, "C09.MERGE", f"{fn.qual}/every-future-joined", fn.loc(c), "every iteration of the gather loop reaches fut.result()",
+                  "an iteration of the gather loop can move on without calling fut.result(): that task's outcome (result or error) is dropped", ctx.path_witness(fn, p))
     # the one-worker branch is a plain loop over tasks
     seq = [n for n in cfg.nodes if n.kind == "iter" and src(n.ast.iter) == fn.params[0] and any(p and "<= 1" in t for t, p in cfg.facts(n))]
     ctx.check(bool(seq), "C09.MERGE", f"{fn.qual}/one-worker-is-plain-loop", fn.loc(), "max_workers <= 1 runs a plain loop over the tasks", "the one-worker branch is not a plain loop over `tasks`")
